@@ -9,6 +9,7 @@ if ! git apply "$P" 2>/dev/null; then
   git reset -q
 fi
 mkdir -p /verif/sim/target/mutant-out
+find /verif/sim/target/mutant-out -name "*.json" -delete 2>/dev/null
 cd /verif && CSIM_EVIDENCE_DIR=/verif/sim/target/mutant-out CSIM_REPLAY_DIR=/verif/sim/target/mutant-out ./check "$ID" "$TIER" > /tmp/try_mutant.$$.out 2>&1; RC=$?
 grep -E '^(VIOLATION|KNOWN-FINDING|HARNESS-ERROR|  signature|C[0-9]+ (quick|thorough):)' /tmp/try_mutant.$$.out | head -12
 rm -f /tmp/try_mutant.$$.out
